@@ -98,7 +98,8 @@ def resolve_atom(a):
             return p_const(PRIM[t])
         m = re.match(r"^\[(\w+); (\w+)\]$", t or "")
         if m:
-            return p_mul(resolve_atom(("sz", m.group(1))), p_atom(("N", m.group(2))))
+            n = m.group(2)
+            return p_mul(resolve_atom(("sz", m.group(1))), p_const(int(n)) if n.isdigit() else p_atom(("N", n)))
         return p_atom(a)
     if a[0] == "call" and a[1] == "varint_max" and len(a[2]) == 1 and a[2][0] in sym.SIZES:
         return p_const((8 * sym.SIZES[a[2][0]] + 6) // 7)
